@@ -2620,15 +2620,10 @@ func getVarDependencies(nod *node, sc *scope) (deps []*node) {
 		if n.kind != identExpr {
 			return true
 		}
-		// Process ident nodes, and avoid false dependencies.
-		if n.anc.kind == selectorExpr && childPos(n) == 1 {
-			return false
-		}
-		sym, _, ok := sc.lookup(n.ident)
-		if !ok {
-			return false
-		}
-		if sym.kind != varSym || !sym.global || sym.node == nod {
+		// The identifiers are resolved by their symbol, set at CFG: a local variable,
+		// a field name or a blank identifier is never a dependency.
+		sym := n.sym
+		if sym == nil || sym.kind != varSym || !sym.global || sym.node == nod {
 			return false
 		}
 		deps = append(deps, sym.node)
